@@ -1,5 +1,5 @@
 #!/bin/sh
 # (re)generate coq/_CoqProject file list and Makefile from the files on disk
-cd /verif/coq || exit 1
+cd "$(dirname "$0")/../coq" || exit 1
 { echo "-Q theories Gemato"; echo "-arg -w -arg -notation-overridden,-deprecated-hint-without-locality,-ambiguous-paths"; find theories -name '*.v' | sort; } > _CoqProject.new
 if ! cmp -s _CoqProject.new _CoqProject || [ ! -f Makefile ]; then mv _CoqProject.new _CoqProject; coq_makefile -f _CoqProject -o Makefile >/dev/null; else rm _CoqProject.new; fi
